@@ -28,7 +28,7 @@ ASSUMPTIONS = [
     "template_cache_size=None through settings falls back to 128 (observation, not asserted)",
     "one Engine instance per engine class (cache key uses the engine class path)",
 ]
-BOUNDS = {"quick": {"dfs_len": 5, "hyp_examples": 6000}, "thorough": {"dfs_len": 7, "hyp_examples": 40000}}
+BOUNDS = {"quick": {"dfs_len": 5, "hyp_examples": 6000}, "thorough": {"dfs_len": 7, "hyp_examples": 150000}}
 
 KEYS = ["a", "b", "c"]
 SIZES = [None, 0, 1, 2, 3]
@@ -281,12 +281,13 @@ def plan(tier, seed, scale=1.0):
         for first in range(len(ops)):
             specs.append({"kind": "dfs", "size": size, "first": first, "maxlen": b["dfs_len"]})
     n = max(1, int(b["hyp_examples"] * scale))
-    for sh in range(8):
-        specs.append({"kind": "hyp_lru", "n": n // 8, "seed": derive_seed(seed, "lru", sh)})
-    for sh in range(4):
-        specs.append({"kind": "hyp_ct", "n": max(50, n // 16), "seed": derive_seed(seed, "ct", sh)})
-    for sh in range(4):
-        specs.append({"kind": "hyp_rs", "n": max(20, n // 60), "seed": derive_seed(seed, "rs", sh)})
+    k = 1 if tier == "quick" else 6  # more, smaller Hypothesis shards in the thorough tier (bounded memory per shard)
+    for sh in range(8 * k):
+        specs.append({"kind": "hyp_lru", "n": n // (8 * k), "seed": derive_seed(seed, "lru", sh)})
+    for sh in range(4 * k):
+        specs.append({"kind": "hyp_ct", "n": max(50, n // (16 * k)), "seed": derive_seed(seed, "ct", sh)})
+    for sh in range(4 * k):
+        specs.append({"kind": "hyp_rs", "n": max(20, n // (60 * k)), "seed": derive_seed(seed, "rs", sh)})
     return specs
 
 
